@@ -542,6 +542,10 @@ Rock::Rebuild::importEntry(Ipc::StoreMapAnchor &anchor, const sfileno fileno, co
     if (!storeRebuildParseEntry(buf, loadedE, key, counts, knownSize))
         return false;
 
+    // an all-ones size is the "unknown" marker of other code; on disk it is corruption
+    if (loadedE.swap_file_sz == static_cast<uint64_t>(-1))
+        return false;
+
     // the entry size may be unknown, but if it is known, it is authoritative
 
     debugs(47, 8, "importing basics for entry " << fileno <<
@@ -602,6 +606,7 @@ Rock::Rebuild::finalizeOrThrow(const sfileno fileNo, LoadingEntry &le)
     // walk all map-linked slots, starting from inode, and mark each
     Ipc::StoreMapAnchor &anchor = sd->map->writeableEntry(fileNo);
     Must(le.size > 0); // paranoid
+    Must(le.anchored()); // no entries without their first (metadata) slot
     uint64_t mappedSize = 0;
     SlotId slotId = anchor.start;
     while (slotId >= 0 && mappedSize < le.size) {
@@ -619,6 +624,8 @@ Rock::Rebuild::finalizeOrThrow(const sfileno fileNo, LoadingEntry &le)
     /* no hodgepodge entries: one entry - one full chain and no leftovers */
     Must(slotId < 0);
     Must(mappedSize == le.size);
+    // a known entry size is authoritative: a shorter chain is a truncated entry
+    Must(!anchor.basics.swap_file_sz || anchor.basics.swap_file_sz == le.size);
 
     if (!anchor.basics.swap_file_sz)
         anchor.basics.swap_file_sz = le.size;
@@ -814,7 +821,10 @@ Rock::Rebuild::addSlotToEntry(const sfileno fileno, const SlotId slotId, const D
 
         // set total entry size and/or check it for consistency
         if (const uint64_t totalSize = header.entrySize) {
-            assert(totalSize != static_cast<uint64_t>(-1));
+            if (totalSize == static_cast<uint64_t>(-1)) {
+                freeBadEntry(fileno, "bad entry size");
+                return;
+            }
             if (!anchor.basics.swap_file_sz) {
                 anchor.basics.swap_file_sz = totalSize;
                 assert(anchor.basics.swap_file_sz != static_cast<uint64_t>(-1));
